@@ -172,7 +172,6 @@ func runNotFoundExit(rc *RuleCtx) {
 	}
 }
 
-
 // exitOnEquality: block b (or its unique chain of predecessors without branching) ends in an If
 // on an ==/!= comparison or a bool-returning call such as bytes.Equal.
 func exitOnEquality(b *ssa.BasicBlock) bool {
